@@ -66,6 +66,21 @@ def flat(orig):
     return frozenset(out)
 
 
+def elements_of(orig):
+    """origins of the elements of a container with these origins: a tuple's components, what a fresh container was filled with
+    ('shallow'), the container itself for anything else (an element of a parameter list is the parameter's)"""
+    out = set()
+    for o in orig:
+        if o[0] == "tuple":
+            for x in o[1]:
+                out |= x
+        elif o[0] == "shallow":
+            out |= set(o[1])
+        else:
+            out.add(o)
+    return frozenset(out)
+
+
 class WriteSite:
     def __init__(self, fi, node, kind, target_text, origins, detail=""):
         self.fi, self.node, self.kind, self.target_text, self.origins, self.detail = fi, node, kind, target_text, flat(origins), detail
@@ -212,7 +227,7 @@ class _State:
             self.env[target.id] = orig
         elif isinstance(target, (ast.Tuple, ast.List)):
             tup = [o for o in orig if o[0] == "tuple"]
-            rest = frozenset(o for o in orig if o[0] != "tuple")
+            rest = elements_of(frozenset(o for o in orig if o[0] != "tuple"))
             star = [i for i, e in enumerate(target.elts) if isinstance(e, ast.Starred)]
             n = len(target.elts)
             for i, e in enumerate(target.elts):
@@ -268,12 +283,33 @@ class _State:
                         out |= o[1][i] if -len(o[1]) <= i < len(o[1]) else {("unknown", "index")}
                     else:
                         out.add(o)
-                return frozenset(out)
+                return frozenset(x for o in out for x in (o[1] if o[0] == "shallow" else [o]))
+            if any(o[0] == "shallow" for o in base) and not isinstance(e.slice, ast.Slice):
+                return frozenset(x for o in flat(base) for x in (o[1] if o[0] == "shallow" else [o]))
             return flat(base)
         if isinstance(e, ast.Starred):
             return self.origin(e.value)
         if isinstance(e, ast.Tuple):
             return frozenset({("tuple", tuple(self.origin(x) for x in e.elts))})
+        if isinstance(e, (ast.List, ast.Set)) and e.elts:
+            # a new container holding the given objects: writing into an element writes into that object
+            eo = set()
+            for x in e.elts:
+                eo |= elements_of(self.origin(x.value)) if isinstance(x, ast.Starred) else self.origin(x)
+            eo = frozenset(o for o in flat(frozenset(eo)) if o not in (("fresh", ), ("scalar", )))
+            return frozenset({("shallow", eo)}) if eo else FRESH
+        if isinstance(e, (ast.ListComp, ast.SetComp, ast.GeneratorExp)) and len(e.generators) == 1 and not e.generators[0].is_async:
+            g = e.generators[0]
+            saved = dict(self.env)
+            try:
+                self.bind(g.target, elements_of(self.origin(g.iter)))
+                for c_ in g.ifs:
+                    self.origin(c_)
+                eo = self.origin(e.elt)
+            finally:
+                self.env = saved
+            eo = frozenset(o for o in flat(eo) if o not in (("fresh", ), ("scalar", )))
+            return frozenset({("shallow", eo)}) if eo else FRESH
         if isinstance(e, (ast.List, ast.Dict, ast.Set, ast.ListComp, ast.SetComp, ast.DictComp, ast.GeneratorExp, ast.Lambda, ast.JoinedStr)):
             self._scan_nested_calls(e)
             return FRESH
@@ -705,7 +741,7 @@ class _State:
         if isinstance(st, (ast.For, ast.AsyncFor)):
             it = self.origin(st.iter)
             for _ in range(2):
-                self.bind(st.target, flat(it) if not any(o[0] == "tuple" for o in it) else frozenset(x for o in it if o[0] == "tuple" for e in o[1] for x in e) | frozenset(o for o in it if o[0] != "tuple"))
+                self.bind(st.target, elements_of(it))
                 e0 = dict(self.env)
                 n_sites = len(self.res.sites)
                 self.block(st.body)
